@@ -10,7 +10,15 @@ import (
 )
 
 func init() {
-	Register(&PropDef{ID: "C07", Run: runC07, Drops: true})
+	Register(&PropDef{ID: "C07", Run: func(c *Ctx) {
+		if c.Spec.GenSeed%8 == 3 {
+			c.DisarmDrops()
+			runC07b(c) // bounded buffering for a client that is not reading, measured over rawsocket
+			return
+		}
+		runC07(c)
+	}, Drops: true})
+	Register(&PropDef{ID: "C07b", Run: runC07b})
 }
 
 // runC07: some sessions stop reading (and possibly resume) while the others
